@@ -54,7 +54,7 @@ AbortSave ==
          /\ writers' = {IF w.blk = saver.blk /\ w.fin = "no" THEN [w EXCEPT !.fin = "abort"] ELSE w : w \in writers}
 
 \* AcceptBlock: the memory effects are Ledger's Deliver; disk effects inside it: undo files (height-keyed),
-\* invalid flags of failing blocks (only the failing block itself: delAllChildren marks the parent again)
+\* invalid flags of the failing block and its descendants
 CSDeliver(b) ==
     /\ ~crashed /\ wpc = 0
     /\ Deliver(b)
@@ -64,8 +64,8 @@ CSDeliver(b) ==
        ELSE UNCHANGED <<saver, writers>>
     /\ LET stored == IF b \in known' THEN <<b>> ELSE <<>>
            lost == known \ known'                       \* deleted from the tree by a failed reorganisation
-           \* BlockInvalid is called for the failing block only; a queued one is forgotten, a written one flagged
-           failing == {x \in lost \cup {b} : x \notin known' /\ (Parent(x) \in known' \cup {0})}
+           \* BlockInvalid for the failing block and every descendant: a queued one is forgotten, a written one flagged
+           failing == lost \cup ({b} \ known')
        IN /\ queue' = SeqMinus(queue \o stored, failing)
           /\ idxF' = MarkInv(idxF, failing)
     /\ UNCHANGED <<datW, dbF, oldF, tmpF, crashed, nSaves, nCrashes, panicked, wpc>>
@@ -156,7 +156,7 @@ Recover ==
                        /\ idxF' = MarkInv(idxF, Range(st1.failed))
                        /\ panicked' = ""
     /\ crashed' = FALSE /\ tmpF' = {}
-    /\ nDeliv' = nDeliv /\ balOn' = balOn /\ last' = [accepted |-> FALSE, later |-> FALSE, viol |-> {}]
+    /\ nDeliv' = nDeliv /\ balOn' = balOn /\ flushed' = known' /\ last' = [accepted |-> FALSE, later |-> FALSE, viol |-> {}]
     /\ UNCHANGED <<queue, datW, dbF, oldF, saver, writers, nSaves, nCrashes, wpc>>
 
 CNext ==
